@@ -136,6 +136,7 @@ type genOpts struct {
 	maxCL, maxBundles, maxItems int
 	binary                      bool // arbitrary bytes in signatures / images (length-prefix framing only)
 	b64                         int  // percent of images given as base64 text (standard or URL-safe alphabet) with LengthImageData = decoded size
+	kind                        int  // 0: forward or return cash letters at random, 1: forward only, 2: return only
 	zones                       bool // date members carry a non-UTC zone and a time of day that crosses midnight in UTC
 	mutateP                     int  // percent of fields varied
 }
@@ -293,7 +294,7 @@ func genCheck(r rng, o genOpts) *icl.CheckDetail {
 	for i := 0; i < nB; i++ {
 		b := baseCheckDetailAddendumB()
 		mutateRecord(r, "CheckDetailAddendumB", &b, o.mutateP)
-		key := r.asciiStr(34+r.Intn(12), alnumChars) // the reader requires every record to be >= 80 bytes
+		key := r.asciiStr(r.Intn(46), alnumChars) // 46 + K bytes: shorter than 80 for K < 34
 		b.ImageReferenceKey, b.LengthImageReferenceKey = key, fmt.Sprintf("%04d", len(key))
 		cd.AddCheckDetailAddendumB(b)
 	}
@@ -305,12 +306,22 @@ func genCheck(r rng, o genOpts) *icl.CheckDetail {
 	cd.AddendumCount = nA + nB + nC
 	nV := r.Intn(3)
 	full := r.Intn(3) > 0
+	withData, withAnalysis := full, full
+	if r.Intn(4) == 0 {
+		// views with only one of the two optional records
+		withData, withAnalysis = r.Intn(2) == 0, true
+		if !withData && r.Intn(2) == 0 {
+			withData, withAnalysis = true, false
+		}
+	}
 	for i := 0; i < nV; i++ {
 		d := baseImageViewDetail()
 		mutateRecord(r, "ImageViewDetail", &d, o.mutateP)
 		cd.AddImageViewDetail(d)
-		if full {
+		if withData {
 			cd.AddImageViewData(mkIVData(r, o))
+		}
+		if withAnalysis {
 			a := baseImageViewAnalysis()
 			mutateRecord(r, "ImageViewAnalysis", &a, o.mutateP)
 			cd.AddImageViewAnalysis(a)
@@ -338,7 +349,7 @@ func genReturn(r rng, o genOpts) *icl.ReturnDetail {
 	for i := 0; i < nC; i++ {
 		c := baseReturnDetailAddendumC()
 		mutateRecord(r, "ReturnDetailAddendumC", &c, o.mutateP)
-		key := r.asciiStr(34+r.Intn(12), alnumChars)
+		key := r.asciiStr(r.Intn(46), alnumChars)
 		c.ImageReferenceKey, c.LengthImageReferenceKey = key, fmt.Sprintf("%04d", len(key))
 		rd.AddReturnDetailAddendumC(c)
 	}
@@ -372,6 +383,11 @@ func genFile(r rng, o genOpts) (*icl.File, error) {
 		clh := baseCashLetterHeader()
 		mutateRecord(r, "CashLetterHeader", clh, o.mutateP)
 		forward := r.Intn(3) > 0
+		if o.kind == 1 {
+			forward = true
+		} else if o.kind == 2 {
+			forward = false
+		}
 		if forward {
 			clh.CollectionTypeIndicator = []string{"00", "01", "02"}[r.Intn(3)]
 		} else {
